@@ -3,7 +3,7 @@ CONSTANTS
   EstimatorSet <- NonparametricOnly
   DistrictKinds <- BothKinds
   EstimandSet <- VoteCounts
-  AlphaSet <- Alphas3
+  AlphaSet <- Alphas5
   AggSet <- Aggs5
   MaxEsts = 3
   MaxAlphas = 3
